@@ -1,0 +1,14 @@
+//go:build verif
+
+package simplefixgo
+
+// VerifTrace, when set (verification builds only: -tags verif), receives one event per handler
+// creation ("new-acceptor", "new-initiator"), per inbound message at the start of its dispatch
+// ("in") and per outbound message after it has been serialized, still under the handler lock ("out").
+var VerifTrace func(kind string, handler interface{}, data []byte)
+
+func verifTrace(kind string, handler interface{}, data []byte) {
+	if f := VerifTrace; f != nil {
+		f(kind, handler, data)
+	}
+}
